@@ -1,7 +1,7 @@
 SPECIFICATION Spec
 CONSTANTS
-  Depths = {8, 100, 1000, 10000}
+  Depths = {8, 64, 1000, 25000}
   Levels = {"Lua55", "LuaJIT"}
-  TreeDepthBound = 2000
-  MustErrorAbove = 999
+  CleanUpTo = 64
+  MustErrorAbove = 200
 INVARIANTS Emit
